@@ -188,3 +188,36 @@ def _nonzero_get(I, a, ci, dt):
     while isinstance(v, Ref):
         v = I.load(v)
     return v.f[0]
+
+
+# tokio::runtime::Builder: the configuration that matters for behaviour is the worker count
+# (tokio asserts `worker_threads > 0`) and, for `max_blocking_threads`, the same assertion.
+@reg('Builder::new_multi_thread', 'Builder::new_current_thread')
+def _rtb_new(I, a, ci, dt):
+    return Struct('RuntimeBuilder', (ci.method, None))
+
+
+def _rtb_self(I, v):
+    r = v
+    while isinstance(I.load(r) if isinstance(r, Ref) else r, Ref):
+        r = I.load(r)
+    return r
+
+
+@reg('Builder::worker_threads', 'Builder::max_blocking_threads')
+def _rtb_workers(I, a, ci, dt):
+    n = a[1]
+    if I.branch(n == 0) if is_sym(n) else n == 0:
+        raise Panic('Worker threads cannot be set to 0' if ci.method == 'worker_threads' else 'Max blocking threads cannot be set to 0')
+    return a[0]
+
+
+@reg('Builder::enable_all', 'Builder::enable_io', 'Builder::enable_time', 'Builder::thread_name', 'Builder::thread_stack_size',
+     'Builder::thread_keep_alive', 'Builder::global_queue_interval', 'Builder::event_interval')
+def _rtb_opt(I, a, ci, dt):
+    return a[0]
+
+
+@reg('Builder::build')
+def _rtb_build(I, a, ci, dt):
+    return Ok(Struct('Runtime', ()))
